@@ -79,6 +79,18 @@ claim('C14',
       'in no-failing-input-found).',
       'DESIGN.md 4 C14')
 
+claim('C11',
+      'Function and loop contracts on the real SkipSpaces, SkipNonSpaces, SkipToEnd, SkipToMatchingQuote, quoted, '
+      'OptionHelper<int|double|std::string>::Parse and the whole BasicSolver::ParseOptionString, over an arbitrary '
+      'NUL-terminated option text of any length: every read stays at or before the terminator (also for unterminated '
+      'quotes), cursors only move forward, string values are built from in-range (pointer,length) pairs, the name buffer '
+      'is large enough. ParseOptionString is verified modularly against the contracts of the scanners and value parsers.',
+      'Trusted: CBMC, extractor, isspace as the C-locale predicate total on int, strtol/strtod never pass the first NUL, '
+      'FindOption/HandleUnknownOption/ReportError/Print as stubs. Not decided: faithfulness of values, synonym/wildcard '
+      'lookup, source order, echo, termination when HandleUnknownOption returns without consuming. Native replay is a '
+      'driver run on a given text under ASan, not generated from verifier traces.',
+      'DESIGN.md 4 C11')
+
 for pid, reason in [
     ('C01', 'relational whole-pipeline equivalence across ~12k lines of CRTP templates; no function boundary carries it and the code is outside the mechanically extractable C subset (DESIGN.md 5)'),
     ('C09', 'whole-process behaviour (exit status, files, exception propagation through try/catch) - not expressible as function contracts here (DESIGN.md 5)'),
